@@ -443,9 +443,20 @@ def cli_env(hs, scratch):
                     "TZ": ["UTC", "Asia/Tokyo", "America/New_York", "UTC"][k]})
         if k == 1:
             env["PYTHONOPTIMIZE"] = "1"
+        if k == 2:
+            env["LC_ALL"] = "C"  # (stdout keeps UTF-8 through PYTHONIOENCODING)
     env.pop("TRAVIS", None)
     env.pop("FORCE_COVERAGE", None)
     return env
+
+
+def cli_cwd(hs, scratch):
+    """Every path of the commands of this layer is absolute: the working directory is not input either."""
+    if hs not in (0, "mtime") and hs % 4 == 3:
+        cwd = os.path.join(scratch, "elsewhere")
+        os.makedirs(cwd, exist_ok=True)
+        return cwd
+    return scratch
 
 
 def run_twice(scratch, argv, out_name):
@@ -553,8 +564,9 @@ def cli_layer(ctx, rep, workloads, n):
         def one(task):
             j, hs, argv = task
             env = cli_env(hs, scratch)
+            cwd = cli_cwd(hs, scratch)
             p = subprocess.run([PYTHON, "-m", "json_to_models", *argv], capture_output=True, env=env,
-                               timeout=180, cwd=scratch)
+                               timeout=180, cwd=cwd)
             return j, hs, argv, p.returncode, normalise_cli(p.stdout.decode("utf-8", "replace"))
 
         with ThreadPoolExecutor(max_workers=max(2, ctx.jobs)) as ex:
@@ -710,7 +722,7 @@ def replay(ctx, payload):
                         for k, rel in enumerate(rels):
                             os.utime(os.path.join(scratch, rel), (1_600_000_000 + 1000 * k,) * 2)
                     p = subprocess.run([PYTHON, "-m", "json_to_models", *argv], capture_output=True, env=cli_env(hs, scratch),
-                                       timeout=180, cwd=scratch)
+                                       timeout=180, cwd=cli_cwd(hs, scratch))
                     outs.append((p.returncode, normalise_cli(p.stdout.decode("utf-8", "replace"))))
                 if outs[0] != outs[1]:
                     return True, "real CLI subprocess output differs between the two hash seeds: " + \
